@@ -494,6 +494,11 @@ func runChild(r *vrt.R) {
 		before := exactAlloc()
 		c.decodeOnce(payload, true)
 		d := exactAlloc() - before
+		before = exactAlloc()
+		c.decodeLogged(payload)
+		if dl := exactAlloc() - before; dl > d {
+			d = dl
+		}
 		if d > budget(len(payload)) {
 			c.violation(pktgen.TypeName(cell.Type)+"/alloc-blowup", fmt.Sprintf("%s: %d-byte payload allocated %d bytes (budget %d)\n  payload: %s",
 				cell, len(payload), d, budget(len(payload)), hx(payload)), payload)
